@@ -244,7 +244,12 @@ fn dial_matrix() -> SimResult {
     let t2 = Node::new(probe_composite(keepalive_cfgs()), &quiet_knobs(), None);
     let a_listen = a.listen();
     let a_listen2 = net::node_addr(a.idx, 4002);
-    a.swarm.borrow_mut().listen_on(a_listen2.clone()).unwrap();
+    let lid2 = a.swarm.borrow_mut().listen_on(a_listen2.clone()).unwrap();
+    // the second listener reports one more address (like a wildcard listener does for every interface)
+    let a_listen3 = net::node_addr(a.idx, 4003);
+    net::emit(a.idx, net::TEvent::NewAddress { id: lid2, addr: a_listen3.clone() });
+    // ground truth of "addresses the Swarm is itself listening on": what the transport announced, not what the Swarm lists
+    let own_truth = vec![a_listen.clone(), a_listen2.clone(), a_listen3.clone()];
     let targets = [&t1, &t2];
     let good: Vec<Multiaddr> = targets.iter().map(|t| t.listen()).collect();
     // per target: an address whose dial hangs (keeps the peer in "dialing"), and a dead one
@@ -269,7 +274,7 @@ fn dial_matrix() -> SimResult {
                 }
                 if k == 1 {
                     v.push(dead.clone());
-                    v.push(a_listen.clone()); // own listen address from a behaviour
+                    v.push(if choose(2) == 0 { a_listen.clone() } else { a_listen3.clone() }); // own listen address from a behaviour
                 }
                 if k == 2 && choose(2) == 0 {
                     v.push(good[ti].clone()); // duplicate across fields
@@ -311,11 +316,12 @@ fn dial_matrix() -> SimResult {
         let extend = choose(2) == 0;
         let mut explicit: Vec<Multiaddr> = vec![];
         for _ in 0..choose(5) {
-            explicit.push(match choose(7) {
+            explicit.push(match choose(8) {
                 0 | 1 => good[ti].clone(),
                 2 => dead.clone(),
                 3 => a_listen.clone(),
                 4 => a_listen2.clone(),
+                7 => a_listen3.clone(),
                 5 => good[ti].clone().with(Protocol::P2p(other_peer)), // carries a foreign /p2p
                 _ => good[ti].clone().with(Protocol::P2p(t.peer)),     // already carries the right /p2p
             });
@@ -342,7 +348,7 @@ fn dial_matrix() -> SimResult {
             PeerCondition::NotDialing => !dialing,
             PeerCondition::DisconnectedAndNotDialing => !connected && !dialing,
         };
-        let listeners: Vec<Multiaddr> = a.swarm.borrow().listeners().cloned().collect();
+        let listeners: Vec<Multiaddr> = own_truth.clone();
         let recs_before = net::with_net(|n| n.dials.len());
         let fails_before = count_dial_failures(&a, id);
         let r = a.dial(opts);
